@@ -3,6 +3,7 @@ import hashlib
 import multiprocessing as mp
 import os
 import resource
+import shutil
 import subprocess
 import time
 from concurrent.futures import ThreadPoolExecutor
@@ -46,7 +47,7 @@ def _worker(path, conn, wal=None):
         s = "err recursionError"
     dt = time.time() - t0
     rss = resource.getrusage(resource.RUSAGE_SELF).ru_maxrss - rss0     # growth caused by this parse
-    conn.send((hashlib.sha1(s.encode()).hexdigest(), s[:160], frames, dt, rss))
+    conn.send((hashlib.sha1(s.encode()).hexdigest(), s[:160], frames, dt, rss, s if len(s) < (4 << 20) else None))
     conn.close()
 
 
@@ -68,7 +69,7 @@ def run_impl(path, limit, wal=None):
         p.join()
         return {"timeout": alive, "crashed": not alive, "exitcode": p.exitcode}
     p.join()
-    return {"sha": res[0], "prefix": res[1], "frames": res[2], "time": res[3], "rss_kb": res[4]}
+    return {"sha": res[0], "prefix": res[1], "frames": res[2], "time": res[3], "rss_kb": res[4], "full": res[5]}
 
 
 def run_model(path, frames, limit, wal=None):
@@ -189,8 +190,15 @@ def run(ctx, per_db_quick=130, per_db_thorough=2500):
                 else:
                     msha = hashlib.sha1(model.encode()).hexdigest()
                     if msha != impl["sha"]:
-                        ctx.disagreements.append({"label": "db.dump(corrupt)", "op": str(desc)[:300],
-                                                  "impl": impl["prefix"][:120], "model": model[:120]})
+                        full = impl.get("full") or impl["prefix"]
+                        k = next((i for i, (a, b) in enumerate(zip(full, model)) if a != b), min(len(full), len(model)))
+                        keep = os.path.join(C.ROOT, "replays", "files")
+                        os.makedirs(keep, exist_ok=True)
+                        kept = os.path.join(keep, f"C18-disagree-{len(ctx.disagreements)}" + (".db-wal" if wal else ".db"))
+                        if len(ctx.disagreements) < 4:
+                            shutil.copyfile(wal or p, kept)
+                        ctx.disagreements.append({"label": "db.dump(corrupt)", "op": str(desc)[:300], "file": os.path.relpath(kept, C.ROOT),
+                                                  "at": k, "impl": full[max(0, k - 200):k + 120], "model": model[max(0, k - 200):k + 120]})
             if len(ctx.oracle_failures) > n0:
                 C.keep_failing_files(ctx, n0, p, wal)
             ctx.sample({"corruption": desc, "impl": impl.get("prefix", str(impl))[:80]}, cap=6)
